@@ -509,7 +509,7 @@ func TestC12(t *testing.T) {
 	rig.Main(t, "C12", "part A (complete): every opcode x {E=1; E=0 x M x X} x DL zero/non-zero x index values {0,1,$FF} x operand low byte {00,FF} x flags all-clear/all-set "+
 		"(both branch outcomes) x displacement {+2,+$7F,-$80} x PC {page start, page end} on both interpreters: cycles >= 1, == CPU.Cycles, AllCycles += cycles, stop flag only for STP; plus every opcode as the first instruction of an interrupt handler entered by that step (IRQ with I clear/set, NMI). "+
 		"Parts B-D (rapid): JIT-synthesised programs on emulator.System (flat sparse bus) with RunUntil(target,max) for targets on/off the path and budgets 0, 1, exact-1/+0/+1, large, "+
-		"compared with the specification loop run on a twin CPU; OnPC/OnWDM call counts; Logger.Write counts; STP/Reset.  Non-trivial (B-D) = the target or the budget cut the run short; "+
+		"compared with the specification loop run on a twin CPU; OnPC/OnWDM call counts; Logger.Write counts; STP/Reset; every opcode is also stepped on a CPU made with InitFrom, and in a share of the untraced runs the first callback panics once and RunUntil is called again.  Non-trivial (B-D) = the target or the budget cut the run short; "+
 		"distinct = enumerated cell, or hash(case).",
 		func(r *rig.Run) {
 			ev := r.Ev
